@@ -144,7 +144,7 @@ def check_ast(ast, acc, case):
         acc.states.add(len(w))
         acc.trans.add(tuple(len(x) for x in w))
     idx = step_index(ast)
-    for route, res in (('fresh compiler', got), ('compiler that compiled other documents before', P.compile_reused(ast))):
+    for route, res in P.routes(ast, got):
         if res[0] != 'ok':
             acc.violation('compile-exception', case, 'Compiler.compile (%s) raised %s' % (route, res[1]))
             return
